@@ -593,6 +593,17 @@ def inverse(repo, rule):
             inner = call
         ok = inner is not None and norm(inner.func).endswith("invert") and len(inner.args) == 2 \
             and norm(inner.args[0]) == fi.params[0] and norm(inner.args[1]) == mod_b
+        if not ok and inner is not None and norm(inner.func) == "pow" and len(inner.args) == 3 and norm(inner.args[0]) == fi.params[0] \
+                and norm(inner.args[2]) == mod_b and norm(inner.args[1]).replace(" ", "") in ("-1", "%s-2" % mod_b):
+            # Fermat / built-in modular inverse: x^(p-2) mod p (0 for x = 0 mod p) or pow(x, -1, p) (raises for it); the zero case
+            # must raise ZeroDivisionError like the other backends: pow(x, -1, p) does, the Fermat form needs a test of the result
+            if norm(inner.args[1]).replace(" ", "") == "-1":
+                ok = True
+            else:
+                resname = [norm(a.targets[0]) for a in ast.walk(fi.node) if isinstance(a, ast.Assign) and a.value is not None
+                           and norm(_rl(fi.node, a.value)) == norm(inner)]
+                ok = any(isinstance(i_, ast.If) and norm(i_.test).replace(" ", "") in ["%s==0" % r_ for r_ in resname] + ["not%s" % r_ for r_ in resname]
+                         and any(isinstance(b_, ast.Raise) and "ZeroDivisionError" in norm(b_) for b_ in i_.body) for i_ in ast.walk(fi.node))
         if ok:
             rule.ok(fi.loc(), fi.fq, t, "inverse taken modulo the binding get_modulus() returns (%s)" % mod_b)
         else:
